@@ -334,6 +334,9 @@ func (x *Exec) applyAliases(fr *Frame, st, pre *State, c *Contract, aliases []*C
 				// known finding: the clause is only assumed outside the failing region
 				rg := ecPre.Bool(cl.Region)
 				g = tb.Implies(tb.Not(rg), g)
+				if cl.Observed != nil {
+					g = tb.And(g, tb.Implies(rg, ec.Bool(cl.Observed)))
+				}
 			}
 			st.Assume(g)
 		}); err != nil {
